@@ -12,7 +12,8 @@ COQ_REQUIRE = "C13.Run"
 SHARD = 40
 RULE = ("statm records of seven page counts (0 .. 2^52) x page size {real, 4096, 16384, 65536}; smaps listings of 0..25 mappings "
         "drawn from a grammar (hex ranges, perms, 35 path shapes incl. blanks inside and at the end/colons/' (deleted)'/UTF-8/Unicode blanks/figure-like names, repeated "
-        "paths, anonymous, deleted files with the literal name present or absent), each with the ten figure lines in kernel order "
+        "paths, anonymous, deleted files whose marked name exists / is absent for an assortment of errnos (ENAMETOOLONG from real 246..255-byte names "
+        "and > PATH_MAX paths, ELOOP, EIO, EOVERFLOW, ENOTDIR, ESTALE ... injected into os.stat) / is denied (EACCES, EPERM)), each with the ten figure lines in kernel order "
         "plus a per-case kernel profile of optional lines (KernelPageSize, Pss_Dirty, KSM, LazyFree, *Hugetlb, SwapPss, Locked, "
         "THPeligible, ProtectionKey, VmFlags), values up to 2^45 kB; the roll-up computed from the same list (or deliberately "
         "kernel-rounded in Pss or inconsistent), old-kernel line sets (figures printed by no mapping), non-uniform line sets (model only), names with "
@@ -21,8 +22,8 @@ RULE = ("statm records of seven page counts (0 .. 2^52) x page size {real, 4096,
         "fake /proc/meminfo; names containing \\r \\x0b \\x0c \\x1c-\\x1f \\x85 U+0085 U+2028/9; plus a malformed stream (dropped, duplicated, "
         "truncated, foreign lines, empty VmFlags, missing figures, file errors, zombie/gone). Non-trivial = at least one mapping "
         "or a non-empty file; distinct = distinct canonical case hash.")
-TRUSTED = ["correspondence harness props/C13.py + pv/ (fake /proc tree; builtins.open fault injection; os.stat oracle for "
-           "path_exists_strict; psutil._pslinux.PAGESIZE / HAS_PROC_SMAPS_ROLLUP / psutil._TOTAL_PHYMEM / psutil.virtual_memory set per case)",
+TRUSTED = ["correspondence harness props/C13.py + pv/ (fake /proc tree; builtins.open fault injection; os.stat answers per errno for "
+           "path_exists_strict, or the real file system for over-long names; psutil._pslinux.PAGESIZE / HAS_PROC_SMAPS_ROLLUP / psutil._TOTAL_PHYMEM / psutil.virtual_memory set per case)",
            "formats of /proc/<pid>/statm, smaps, smaps_rollup transcribed from proc(5) and fs/proc/task_mmu.c in coq/C13/Spec.v",
            "CPython re engine agrees with the three hand-written scanners of coq/C13/Model.v (exercised on adversarial lines)"]
 ASSUMPTIONS = ["CPython semantics of bytes.split/strip/startswith, str.strip, int, re.findall on the three patterns are modelled, not verified",
@@ -216,6 +217,49 @@ def _pagesize(rng):
     return rng.choice([_page()] * 3 + [4096, 16384, 65536])
 
 
+# what the caller's os.stat answers for a name ending in " (deleted)" (case field "probe": {hex name: action}):
+#   "exists" | an errno name = "not there" for that reason | "eacces"/"eperm" = PermissionError | "real" = the real os.stat
+#   (names whose last component exceeds NAME_MAX or that are longer than PATH_MAX fail with ENAMETOOLONG on their own)
+ABSENT_ERRNOS = ["ENAMETOOLONG", "ELOOP", "EIO", "EOVERFLOW", "ENOTDIR", "ENOENT", "ESTALE", "ENOMEM", "ENXIO"]
+LONG_PATHS = [b"/tmp/" + b"n" * 246, b"/tmp/" + b"n" * 250, b"/tmp/dir/" + b"\xc3\xa9" * 126 + b"xyz", b"/tmp/" + b"m" * 255,
+              b"/" + b"/".join([b"d" * 200] * 21), b"/tmp/lnk/lnk/" + b"x" * 248]
+
+
+def _probe_for(rng, ms, denied=False):
+    """probe outcomes for the marked names of a listing: mostly 'not there' for assorted errnos"""
+    pr = {}
+    for m in ms:
+        p = bytes.fromhex(m["path"])
+        if not p or not _shown(m).endswith(DELETED):
+            continue
+        if m["deleted"]:
+            k = rng.random()
+            if p in LONG_PATHS:
+                pr[_hexs(_shown(m))] = rng.choice(["real", "real", "ENAMETOOLONG"])
+            elif denied and k < 0.5:
+                pr[_hexs(_shown(m))] = rng.choice(["eacces", "eperm"])
+            elif k < 0.6:
+                pr[_hexs(_shown(m))] = rng.choice(ABSENT_ERRNOS)
+    return pr
+
+
+def _split_probe(case):
+    """-> (names that exist, names answered with a permission error) for the Coq term"""
+    ex = [bytes.fromhex(x) for x in case.get("ex", [])]
+    den = []
+    for h, a in sorted(case.get("probe", {}).items()):
+        if a == "exists":
+            ex.append(bytes.fromhex(h))
+        elif a in ("eacces", "eperm"):
+            den.append(bytes.fromhex(h))
+    return ex, den
+
+
+def _g_probe(case):
+    ex, den = _split_probe(case)
+    return "%s %s" % (G.lst([G.by(x) for x in ex]), G.lst([G.by(x) for x in den]))
+
+
 RMODES = ["ok", "ok", "ok", "enoent", "esrch_open", "esrch_read"]
 RMODE_NUM = {"ok": 0, "enoent": 1, "esrch_open": 2, "esrch_read": 2, "eacces": 3}
 
@@ -319,11 +363,31 @@ def gen_cases(rng, tier):
             figs = [l for l in victim["lines"] if l[0] == "F" and l[1] != "Private_Hugetlb"]
             if len(figs) > 1:
                 victim["lines"].remove(rng.choice(figs))
+        kprobe = rng.random()
+        if ms and kprobe < 0.14:       # a deleted file with a long name: the marked name exceeds NAME_MAX / PATH_MAX
+            victim = rng.choice(ms)
+            victim["path"], victim["deleted"] = _hexs(rng.choice(LONG_PATHS[:4] if tier != "thorough" or rng.random() < 0.8 else LONG_PATHS)), True
+            if len(ms) > 1 and rng.random() < 0.5:
+                ms[0]["path"], ms[0]["deleted"] = victim["path"], True
         c = {"kind": "maps", "ms": ms, "ex": _ex_for(rng, ms, amb)}
+        if kprobe < 0.45:
+            c["probe"] = _probe_for(rng, ms, denied=(0.33 <= kprobe))
+            c["ex"] = [x for x in c["ex"] if x not in c["probe"]]
         paths = [m["path"] for m in ms]
-        c["cls"] = "trivial" if not ms else ("maps-nonuniform-lines" if not _uniform(ms) else "maps-linebreak-bytes" if _break_class(ms) else "maps-newline-name" if any(b"\n" in bytes.fromhex(m["path"]) for m in ms) else
+        c["cls"] = "trivial" if not ms else ("maps-probe-denied" if _denied_class(c) else "maps-probe-errno" if c.get("probe") else
+                                             "maps-nonuniform-lines" if not _uniform(ms) else "maps-linebreak-bytes" if _break_class(ms) else "maps-newline-name" if any(b"\n" in bytes.fromhex(m["path"]) for m in ms) else
                                              "maps-old-kernel" if any(_missing(m) for m in ms) else "maps-identical-rows" if _twin_class(ms) else "maps-edge-blank" if _edge_class(c) else "maps-ambiguous-deleted" if amb else
                                              "maps-repeated-paths" if len(set(paths)) < len(paths) else "maps")
+        cases.append(c)
+    # ---- the existence probe answers EACCES / EPERM for an unlinked file's marked name (finding class)
+    for _ in range(2 if tier != "thorough" else 20):
+        ms = _mappings(rng, rng.choice([1, 2, 3]))
+        victim = rng.choice(ms)
+        victim["path"], victim["deleted"] = _hexs(rng.choice([b"/home/u/private/lib.so", b"/root/.cache/x y", b"/srv/locked/a:b"])), True
+        c = {"kind": "maps", "ms": ms, "ex": _ex_for(rng, ms, False)}
+        c["probe"] = {_hexs(_shown(victim)): rng.choice(["eacces", "eperm"])}
+        c["ex"] = [x for x in c["ex"] if x not in c["probe"]]
+        c["cls"] = "maps-probe-denied" if _uniform(ms) else "maps-nonuniform-lines"
         cases.append(c)
     # ---- malformed smaps / errors (model only)
     for _ in range(2 * n):
@@ -390,6 +454,12 @@ _BREAKS = [b"\r", b"\x0b", b"\x0c", b"\x1c", b"\x1d", b"\x1e", b"\x85", b"\xe2\x
 
 def _break_class(ms):
     return any(any(b in bytes.fromhex(m["path"]) for b in _BREAKS) for m in ms)
+
+
+def _denied_class(case):
+    """an unlinked file (readable marker) whose existence probe answers EACCES / EPERM"""
+    pr = case.get("probe", {})
+    return any(m["deleted"] and pr.get(_hexs(_shown(m))) in ("eacces", "eperm") for m in case.get("ms", []))
 
 
 def _figset(m):
@@ -497,9 +567,9 @@ def coq_term(case):
             G.z(case["ps"]), G.z(case["pagesize"]), G.bo(case["has_rollup"]), G.z(RMODE_NUM[case["rmode"]]), _hx(case["rollup"]),
             G.z(RMODE_NUM[case["smode"]]), _hx(case["smaps"]), G.z(RMODE_NUM[case["tmode"]]), _hx(case["statm"]))
     if k == "maps":
-        return "run_maps %s %s" % (_g_ex(case["ex"]), G.lst([_g_mapping(m) for m in case["ms"]]))
+        return "run_maps %s %s" % (_g_probe(case), G.lst([_g_mapping(m) for m in case["ms"]]))
     if k == "maps_raw":
-        return "run_maps_raw %s %s %s %s" % (G.z(case["ps"]), _g_ex(case["ex"]), G.z(RMODE_NUM[case["mode"]]), _hx(case["content"]))
+        return "run_maps_raw %s %s %s %s" % (G.z(case["ps"]), _g_probe(case), G.z(RMODE_NUM[case["mode"]]), _hx(case["content"]))
     if k == "percent_hist":
         ops = []
         for o in case["ops"]:
@@ -562,7 +632,9 @@ def coq_struct(case, raw):
 
 # ------------------------------------------------------------------ judging
 def finding_key(case, coq):
-    # memory_maps-path-edge-blank was repaired by /repo commit c15178c; no open finding class
+    # (memory_maps-path-edge-blank was repaired by /repo commit c15178c)
+    if case["kind"] == "maps" and _denied_class(case):
+        return "memory_maps-probe-permission"
     return None
 
 
@@ -749,6 +821,7 @@ def impl_run(case, coq, env):
         if mode not in ("ok", "enoent"):
             faults[path] = mode
     ex = {bytes.fromhex(x) for x in case.get("ex", [])}
+    probe = {bytes.fromhex(h): a for h, a in case.get("probe", {}).items()}
     real_open, real_stat = builtins.open, os.stat
 
     def fake_open(file, *a, **kw):
@@ -765,9 +838,15 @@ def impl_run(case, coq, env):
         if isinstance(path, (str, bytes)):
             b = os.fsencode(path)
             if b.endswith(DELETED) and not b.startswith(os.fsencode(env["work"])):
-                if b in ex:
+                act = probe.get(b, "exists" if b in ex else "ENOENT")
+                if act == "exists":
                     return real_stat("/")
-                raise FileNotFoundError(errno.ENOENT, "No such file or directory", path)
+                if act == "real":          # e.g. a last component > NAME_MAX: the real file system answers
+                    return real_stat(path, *a, **kw)
+                if act in ("eacces", "eperm"):
+                    raise PermissionError(errno.EACCES if act == "eacces" else errno.EPERM, os.strerror(errno.EACCES), path)
+                code = getattr(errno, act)
+                raise OSError(code, os.strerror(code), path)
         return real_stat(path, *a, **kw)
 
     saved = {"PAGESIZE": _pslinux.PAGESIZE, "ROLLUP": _pslinux.HAS_PROC_SMAPS_ROLLUP, "TOTAL": psutil._TOTAL_PHYMEM,
@@ -833,14 +912,15 @@ def impl_run(case, coq, env):
 
 
 MANIFEST = {
-    "text": "Theorems (Coq, 27, no axioms): for every statm record memory_info is the seven page counts times the page size as pmem(rss, vms, shared, text, lib, "
+    "text": "Theorems (Coq, 30, no axioms): for every statm record memory_info is the seven page counts times the page size as pmem(rss, vms, shared, text, lib, "
             "data, dirty); the four namedtuple layouts of the code (dumped into coq/Gen/C13_Tables.v on every run) are the documented ones used by model "
             "and spec; for every kernel-formatted smaps listing (any number of mappings, any line set incl. all non-figure lines with arbitrary values, "
             "any path bytes) uss/pss/swap are the sums of the private/proportional/swapped kB over all mappings x 1024; a roll-up whose lines are the "
             "sums of the listing's lines gives the same record, as does the ENOENT/ESRCH fallback, and a kernel-rounded roll-up differs in pss only, by "
             "less than one kB per mapping; memory_maps(grouped=False) is one row per mapping with its own address, permissions, path as the kernel "
             "shows it ('[anon]' if none, ' (deleted)' marker removed, newline as \\012) and ten figures for every listing whose line set is the same "
-            "on every mapping (the never-cleared dict is refuted by a witness otherwise); the grouped view has one row per distinct path, each "
+            "on every mapping (the never-cleared dict is refuted by a witness otherwise) and for every answer of the os.stat probe of a marked name "
+            "(there / not there for whatever errno: one row per record, in order; a permission error is refuted: known finding); the grouped view has one row per distinct path, each "
             "field the sum over that path's mappings; memory_percent is 100*field/total for exactly the ten field names and ValueError for every "
             "other name (attribute-like names included) whatever the process state, and over every history of virtual_memory() calls and MemTotal changes "
             "the denominator is the total reported by the last virtual_memory() call. The path decoding used before commit c15178c is kept as "
